@@ -94,9 +94,9 @@ func statOf(n *node) os.FileInfo {
 const readerStyles = 5
 
 type styledReader struct {
-	d          []byte
-	off        int
-	style      int
+	d            []byte
+	off          int
+	style        int
 	zero0, zeroE bool
 }
 
@@ -470,7 +470,7 @@ var (
 	// names that are not a single path component (cannot exist in a file system)
 	namesPathlike = []string{"a/b", "..", ".", "", "/abs", "a/", "a//b", "a/../b", "../x", "a/."}
 
-	modesFull = []uint32{0, 0o644, 0o1777, 0o7777, 0o1, 0o777, uint32(os.ModeDir | 0o755), uint32(os.ModeSetuid | os.ModeSticky | 0o750), uint32(os.ModePerm | os.ModeIrregular)}
+	modesFull  = []uint32{0, 0o644, 0o1777, 0o7777, 0o1, 0o777, uint32(os.ModeDir | 0o755), uint32(os.ModeSetuid | os.ModeSticky | 0o750), uint32(os.ModePerm | os.ModeIrregular)}
 	mtimesFull = []mt{{}, {true, 5, 0}, {true, 5, 7}, {true, -3, 0}, {true, -3, 7}, {true, 0, 0}, {true, 0, 1}, {true, 1604320500, 999999999}, {true, 1 << 40, 500}, {true, -(1 << 40), 0}}
 )
 
